@@ -19,6 +19,7 @@ def gen(rng):
     per_facet = rng.random() < 0.5
     cfg["per_facet"] = per_facet
     cfg["key_order"] = rng.sample(range(2 * dim), 2 * dim) if (per_facet and rng.random() < 0.6) else None
+    cfg["int_dim"] = (not per_facet) and rng.random() < 0.6
     lo = rng.randrange(nout)
     neu_possible = True
     specs = []
@@ -88,6 +89,8 @@ def build_and_eval(cfg):
         bdim = {n: jnp.s_[cfg["lo"]:cfg["hi"]] for n, s in pairs}
     else:
         fun = mkf(specs[0]); cond = "von neumann" if specs[0]["neu"] else "dirichlet"; bdim = jnp.s_[cfg["lo"]:cfg["hi"]]
+        if cfg.get("int_dim") and cfg["hi"] - cfg["lo"] == 1:
+            bdim = int(cfg["lo"])          # a single component may be selected by its integer index (0 included)
     kw = dict(omega_boundary_fun=fun, omega_boundary_condition=cond, omega_boundary_dim=bdim)
     # (rows, coords, facets)
     pts = cfg["points"]
@@ -171,7 +174,7 @@ def generate(tier, seed, casedir, variant):
         viol.append({"detail": f"separable / pointwise boundary comparison raised {type(ex).__name__}: {str(ex)[:300]}", "case": {"what": "impl_vs_impl"}})
     dist["separable_vs_pointwise_rounds"] = nsep
     return dict(meta=meta, oracle_violations=viol, evaluations=len(cases), distinct_nontrivial=len(nontrivial), samples=samples, distribution=dist,
-                rule="random (stationary / non-stationary, 1-D / 2-D) polynomial networks with 1..2 outputs, non-zero polynomial boundary functions returning a 0-d array, a (1,) array or a (k,) array, global or per-facet conditions (dictionaries written in any key order) with facets set to none, component selections, 1..3 time points, hand-built border batches on the box [-1,2]x[0.5,1.5] and (every tenth case) batches made by CubicMeshPDEStatio; non-trivial = non-zero term; plus separable-network against pointwise boundary terms (oracle only)",
+                rule="random (stationary / non-stationary, 1-D / 2-D) polynomial networks with 1..2 outputs, non-zero polynomial boundary functions returning a 0-d array, a (1,) array or a (k,) array, global or per-facet conditions (dictionaries written in any key order) with facets set to none, component selections (slices, or an integer index, 0 included), 1..3 time points, hand-built border batches on the box [-1,2]x[0.5,1.5] and (every tenth case) batches made by CubicMeshPDEStatio; non-trivial = non-zero term; plus separable-network against pointwise boundary terms (oracle only)",
                 oracle_checks=0)
 
 
